@@ -383,7 +383,11 @@ func runC06E2E(run *Run, seed int64, sc c06e2e) (out []*c01Result) {
 		if !leaveAt.IsZero() || fired {
 			break
 		}
-		if w := a.at - time.Since(start); w > 0 {
+		// (in steps, so that the refutation-at-expiry hook firing in between ends the script at once)
+		for w := a.at - time.Since(start); w > 0 && !fired; w = a.at - time.Since(start) {
+			if w > 5*time.Millisecond {
+				w = 5 * time.Millisecond
+			}
 			time.Sleep(w)
 		}
 		Settle(0)
@@ -512,6 +516,7 @@ func runC06E2E(run *Run, seed int64, sc c06e2e) (out []*c01Result) {
 		// accusation at the new incarnation - but it cannot have been declared dead)
 		if rec.State == memberlist.StateDead || rec.State == memberlist.StateLeft || !leaveAt.IsZero() {
 			fail("refuted-then-declared-dead", "the target's refutation (incarnation %d) was accepted after the node's timer had run out and before the node acted on it; the node then declared the refuted target dead: %s, leave event %v", c06TInc+1, recString(rec), !leaveAt.IsZero())
+			out[len(out)-1].What += fmt.Sprintf(" | node log: %q", rig.V.Log.Tail(14))
 		}
 		return
 	}
